@@ -32,10 +32,11 @@ def jobs_for(tier, rng):
     # event probabilities that do not quite sum to one (a truncated distribution): the backup must use the
     # problem's probabilities as they are.  The deficit must be small (about 1e-4) to look like truncation, hence
     # PD = 16384; 32-bit model integers then leave room for one sweep from zero with rewards in {-1, 0, 1}
-    # (gamma = 1 keeps the denominator at PD).
+    # (gamma = 1 keeps the denominator at PD; rewards in {0, 1} keep values and span within [0, 1]).
     for k in range(6 if tier == "quick" else 24):
         m = T.random_mdp(rng, ns=rng.randint(4, 16), na=2, ne=rng.choice([2, 3]), PD=16384, rmax=1, v0max=0,
                          plain_render=True)
+        m["rew"] = [[[abs(r) for r in row] for row in sa] for sa in m["rew"]]      # values and span stay within [0, 1]
         for _ in range(rng.randint(2, 6)):
             s_, a_ = rng.randrange(m["ns"]), rng.randrange(m["na"])
             e_ = max(range(m["ne"]), key=lambda x: m["pk"][s_][a_][x])
